@@ -148,6 +148,11 @@ def run(ctx):
 
     # ---- TMR-6
     check_durations(rep, prog)
+    # ---- TMR-7
+    rep.rule("TMR-7", "every BMCA decision is applied from every prior state (a decision skipped for some state leaves the "
+                      "port where nothing will move it) - shared with C05 BMCA-5", floor=5)
+    from rules import c05 as _c05
+    _c05.check_decision_application(rep, prog, "TMR-7")
 
     # ---- TMR-3
     try:
